@@ -285,6 +285,8 @@ const FRAGMENTS: &[&str] = &[
     "\u{7f}", " ", "\n", "\t", "\r", "\u{a0}", "\u{c}", "\"a\"",
     // look-alikes of the ASCII classes the grammar uses (fullwidth hex digit and letter, Arabic-Indic digit, C1 control)
     "\u{ff10}", "\u{ff21}", "\u{663}", "\u{85}", "\\u000",
+    // four-byte characters with lead bytes F0 and F4
+    "\u{1f600}", "\u{10ffff}",
 ];
 const STRUCT_FRAGMENTS: &[&str] = &["{", "}", "[", "]", ",", ":", "\"\"", "\"a\"", "0", "-1", "1.5e1", "true", "null", " ", "\n", "1"];
 
@@ -341,7 +343,7 @@ fn main() {
         Chars(&'static [char], usize, usize),
     }
     const NUM: &[char] = &['0', '1', '-', '+', '.', 'e', 'E', '\u{663}'];
-    const STR: &[char] = &['"', '\\', 'u', '0', 'A', 'n', 'x', '\u{1f}', 'é', '\u{ff10}', '\u{7f}'];
+    const STR: &[char] = &['"', '\\', 'u', '0', 'A', 'n', 'x', '\u{1f}', 'é', '\u{ff10}', '\u{7f}', '\u{1f600}'];
     const NEST: &[char] = &['[', ']', '{', '}', ':', ',', '0', '"'];
     let mut work: Vec<Work> = vec![];
     for kk in 1..=k {
@@ -400,7 +402,7 @@ fn main() {
     stats.max("string_alphabet_length", lstr as u64);
     stats.max("nesting_alphabet_length", lnest as u64);
     let mut cov = vcore::Map::new();
-    cov.insert("rule".into(), json!("all sequences of 1..=k fragments over a 43-fragment JSON alphabet (structure, quotes, every escape form, bad escapes, digits, signs, exponent letters, literals and a truncated literal, ASCII/non-ASCII letters, U+001F, U+007F, every RFC whitespace, U+00A0, U+000C, fullwidth hex digit/letter, Arabic-Indic digit, U+0085); all sequences of k+1..=ks fragments over 16 structural fragments; character-level exhaustive strings over {0,1,-,+,.,e,E}, over {\",\\,u,0,A,n,x,U+001F,é} and over {[,],{,},:,',',0,\"} up to the stated lengths. JsonParser::parse(Rule::json, s) must be Ok exactly when an RFC 8259 recursive-descent recogniser accepts, and then return exactly the recogniser's tree json(value(..), EOI) with object/pair/array/string/number/bool/null nodes and byte spans. Non-trivial: accepted texts, and rejected texts containing a quote, bracket, brace or digit"));
+    cov.insert("rule".into(), json!("all sequences of 1..=k fragments over a 45-fragment JSON alphabet (structure, quotes, every escape form, bad escapes, digits, signs, exponent letters, literals and a truncated literal, ASCII/non-ASCII letters, U+001F, U+007F, every RFC whitespace, U+00A0, U+000C, fullwidth hex digit/letter, Arabic-Indic digit, U+0085, U+1F600, U+10FFFF); all sequences of k+1..=ks fragments over 16 structural fragments; character-level exhaustive strings over {0,1,-,+,.,e,E}, over {\",\\,u,0,A,n,x,U+001F,é,U+FF10,U+007F,U+1F600} and over {[,],{,},:,',',0,\"} up to the stated lengths. JsonParser::parse(Rule::json, s) must be Ok exactly when an RFC 8259 recursive-descent recogniser accepts, and then return exactly the recogniser's tree json(value(..), EOI) with object/pair/array/string/number/bool/null nodes and byte spans. Non-trivial: accepted texts, and rejected texts containing a quote, bracket, brace or digit"));
     cov.insert("exhaustive".into(), json!(true));
     verdict::conclude(verdict::Report {
         property: "C18",
